@@ -224,7 +224,13 @@ def run(tier, seed, replay):
         return rep.finish()
     nscen = 8 if tier == "quick" else 60
     # payload plan: every 1-byte string on every channel (exhaustive), structure-aware + random beyond
-    payloads = [(ch, [b]) for ch in range(6) for b in range(256)] + [(ch, []) for ch in range(6)]
+    payloads = [(ch, [b]) for ch in range(7) for b in range(256)] + [(ch, []) for ch in range(7)]
+    # channel 6: an event with a string and a float: length prefixes beyond the message, floats cut short
+    for n in (0, 1, 2, 5, 0x7f, 0x80, 300, 2**14, 2**32, 2**63, 2**64 - 1):
+        for tail in ([], [65], [65, 66], [65, 66, 67, 0, 0], [65] * 8):
+            payloads.append((6, varint(n) + tail))
+    for cut in range(0, 8):
+        payloads.append((6, (varint(3) + [97, 98, 99] + [0, 0, 128, 63])[:cut]))
     # payload-less trigger: announced target counts larger than what follows, with valid one-byte entities behind
     for n in (1, 2, 3, 5, 200):
         for k in range(0, 4):
@@ -280,7 +286,7 @@ def run(tier, seed, replay):
             ch = 0 if ch == 0 else (-1 if ch == 1 else ch - 1)
         if ch == 5:
             return -3                         # 5: the client trigger without payload (verdict by the python trigger parser below)
-        return -2 if ch == 4 else ch          # 4: the event with a sequence payload (no byte-level Coq model: watched for panics and allocations only)
+        return -2 if ch in (4, 6) else ch     # 4: the event with a sequence payload, 6: string + float (no byte-level Coq model: watched for panics and allocations only)
     dec_lines = []
     for i, f in inj:
         ch = logical_channel(i, int(f[2]))
